@@ -9,3 +9,5 @@ import ChiaModel.Props.C04
 #print axioms ChiaModel.C04.preCharge_table
 #print axioms ChiaModel.C04.unknown_cost_closed_form
 #print axioms ChiaModel.C04.unknown_cost_fn
+#print axioms ChiaModel.C04.native_cost_decomposition
+#print axioms ChiaModel.C04.runSpendbundle_cost_decomposition
